@@ -15,7 +15,7 @@ for s in seeds:
         matrix[s] = {"error": "patch does not apply"}
         continue
     try:
-        p = subprocess.run(["./check", "all"], cwd=V, stdout=subprocess.PIPE, stderr=subprocess.STDOUT, text=True)
+        p = subprocess.run(["./check", "all", "--no-evidence"], cwd=V, stdout=subprocess.PIPE, stderr=subprocess.STDOUT, text=True)
         fired = {}
         for m in re.finditer(r"^  rule (C\d+)\.(\S+) at", p.stdout, re.M):
             fired.setdefault(m.group(1), set()).add(m.group(1) + "." + m.group(2))
